@@ -285,7 +285,8 @@ func compile(patterns []string, mode Mode) (*regexp.Regexp, error) {
 								break Pattern
 							}
 							b.WriteString(pat[:w])
-						case '!', '-', '[', '\\', ']', '^':
+						case '!', '-', '[', '\\', ']', '^', ':':
+							// (an escaped colon does not start a character class)
 							b.WriteByte('\\')
 						}
 						b.WriteRune(r)
